@@ -550,6 +550,31 @@ theorem distinct_leaves_plain_pipelines (cfg : Cfg) (next : CId) (p : List (Mode
   unfold distinct
   exact distinctGo_no_partition cfg _ next p h
 
+/-- what the four stages leave behind, for every pipeline and every dialect configuration: NO Append and NO Take with a partition
+reaches the splitter and the clause assembly (both rely on it: `translate_select_pipeline` places nothing else, the splitter
+has no rule for them) -/
+theorem stages_leave_only_placeable_transforms (cfg : Cfg) (next : CId) (p : List (Model.Preprocess.Tr × Info))
+    (q1 : List Model.Preprocess.Tr) (n : CId) (q3 q4 : List Model.Preprocess.Tr)
+    (h1 : distinct cfg next p = some (q1, n)) (h3 : except cfg (union q1) = some q3) (h4 : intersect cfg q3 = some q4) :
+    ∀ t ∈ q4, Placeable t := by
+  have a1 : ∀ t ∈ q1, NoPartTake t := distinctGo_noPartTake cfg _ next p q1 n h1
+  have a2 : ∀ t ∈ union q1, Placeable t := union_placeable q1 a1
+  have a3 : ∀ t ∈ q3, Placeable t := exceptGo_placeable cfg _ [] (union q1) q3 h3 (by simp) a2
+  exact intersectGo_placeable cfg _ false [] q3 q4 h4 (by simp) a3
+
+/-- the hypotheses are satisfiable: a partitioned take, an append followed by DISTINCT and an anti-join in one pipeline -/
+example : ∃ q1 n q3 q4,
+    distinct { supportsDistinctOn := false, exceptAll := true, intersectAll := true, wildcards := [] } 9
+      [(.from [0], ⟨none, none⟩), (.take none (some (.int 2)) [0] [], ⟨some [0], none⟩), (.append [1], ⟨some [], none⟩), (.distinct, ⟨none, none⟩),
+       (.join .left [2] (.eq (.col 0) (.col 2)), ⟨some [0, 2], none⟩), (.filter (.eq (.col 2) .null), ⟨some [2], none⟩), (.select [0], ⟨some [0], none⟩)] = some (q1, n) ∧
+    except { supportsDistinctOn := false, exceptAll := true, intersectAll := true, wildcards := [] } (union q1) = some q3 ∧
+    intersect { supportsDistinctOn := false, exceptAll := true, intersectAll := true, wildcards := [] } q3 = some q4 ∧
+    q4 = [.from [0], .rowNumber 9 .rowsAll [0] [], .filter (.lte (.col 9) (.int 2)), .union [1] true, .except [2] false, .select [0]] := by
+  refine ⟨[.from [0], .rowNumber 9 .rowsAll [0] [], .filter (.lte (.col 9) (.int 2)), .append [1], .distinct,
+           .join .left [2] (.eq (.col 0) (.col 2)), .filter (.eq (.col 2) .null), .select [0]], 10,
+          [.from [0], .rowNumber 9 .rowsAll [0] [], .filter (.lte (.col 9) (.int 2)), .union [1] true, .except [2] false, .select [0]],
+          _, by decide, by decide, by decide, rfl⟩
+
 /-- after `union` no Append is left -/
 theorem union_eliminates_append (p : List Model.Preprocess.Tr) : ∀ t ∈ union p, isAppend t = false := union_no_append p
 
